@@ -342,7 +342,7 @@ func VP_C05_pool() {
 		{"123456789012345678901234567890.1234", "123456789012345678901234567890.1235", -1},
 		{"4.9e-324", "5e-324", -1}, {"1.7976931348623157e308", "1.7976931348623158e308", -1},
 		// operands that are themselves computed numbers (prefix operators on numeric text, arithmetic)
-		{"(+'5')", "5", 0}, {"(-'0')", "0", 0}, {"(+'12')", "13", -1}, {"(+'1.50')", "1.5", 0}, {"(0.1 + 0.2)", "0.3", 0}, {"(1 / 4)", "0.25", 0}, {"(2 * 3)", "(7 - 1)", 0}, {"(- -3)", "3", 0},
+		{"(+'5')", "5", 0}, {"(-'0')", "0", 0}, {"(+'12')", "13", -1}, {"(+'1.50')", "1.5", 0}, {"(0.1 + 0.2)", "0.3", 0}, {"(1 / 4)", "0.25", 0}, {"(2 * 3)", "(7 - 1)", 0}, {"(- -3)", "3", 0}, {"1_0e-1", "1", 0}, {"2_5e-2", "0.25", 0}, {"1_0.0E-1", "5", -1},
 	}
 	p := pool[vpChoice("pair", len(pool))]
 	a, b, ord := p.a, p.b, p.ord
